@@ -1,6 +1,231 @@
-(* C17 — line editors behave like an ideal grapheme line editor.  Statements only. *)
+(* C17 — line editors behave like an ideal grapheme line editor.
+   Statements only; proofs live in proofs/EditorsProofs.v.
+
+   Vocabulary (model/IdealEditor.v, model/Editors.v):
+     ideal G            the specification: a zipper of grapheme clusters (text, cursor index)
+     i_run isw e ops    the ideal editor after the operations ops
+     tf / tf_run        vxfw TextField (Value, cursor, cached count n) / HandleEvent + methods
+     ti / ti_run        widgets/textinput Model (content, cursor, offset, paste) / Update, SetContent, Draw
+     tf_abs, ti_abs     the ideal operations a history of widget operations stands for
+     seg, chars, alnum  oracles: uniseg segmentation, vaxis.Characters, unicode letter/number
+
+   Hypothesis of the refinement theorems, stated in each of them: segmentation is
+   BOUNDARY-STABLE on the alphabet A, i.e. a concatenation of clusters of A segments back
+   into exactly those clusters.  (Without it the property is not even well defined: typing
+   "e" and then U+0301 merges two insertions into one cluster.)  Key decoding/matching
+   belongs to C09: the widgets' dispatch is an abstract operation alphabet here. *)
 From Vx Require Import base.Prelude base.ListX model.IdealEditor model.Editors proofs.EditorsProofs.
 
-Theorem C17_placeholder : i_index (@mkIdeal Z [] []) = 0.
-Proof. reflexivity. Qed.
-Print Assumptions C17_placeholder.
+(* ---------------------------------------------------------------- TextField *)
+
+(* From any starting content and cursor (the TextField holding what an ideal editor e0
+   holds), after every finite sequence of key events and method calls whose inserted texts
+   are concatenations of alphabet clusters: the run does not fail, Value segments into
+   exactly the ideal editor's clusters, the cursor is at the ideal editor's index, the
+   cached count is the number of clusters, and the cursor is within the text. *)
+Theorem C17_textfield_refines_ideal :
+  forall (seg : text -> option (list text)) (A : list text),
+    (forall cs, in_alpha A cs -> seg (concat cs) = Some cs) ->
+    forall (e0 : ideal text) (os : list tf_op),
+      in_alpha A (i_text e0) -> Forall (tf_op_ok A) os ->
+      exists st' log, tf_run seg (tf_of_ideal e0) os = Some (st', log) /\
+        let e' := i_run (fun _ => false) e0 (map (tf_abs seg) os) in
+        seg (tf_value st') = Some (i_text e') /\ tf_cursor st' = i_index e' /\
+        tf_n st' = zlen (i_text e') /\ 0 <= tf_cursor st' <= zlen (i_text e').
+Proof. exact tf_refines_ideal. Qed.
+Print Assumptions C17_textfield_refines_ideal.
+
+Theorem C17_textfield_cursor_in_range :
+  forall (seg : text -> option (list text)) (A : list text),
+    (forall cs, in_alpha A cs -> seg (concat cs) = Some cs) ->
+    forall e0 os st' log, in_alpha A (i_text e0) -> Forall (tf_op_ok A) os ->
+      tf_run seg (tf_of_ideal e0) os = Some (st', log) ->
+      exists cs, seg (tf_value st') = Some cs /\ 0 <= tf_cursor st' <= zlen cs /\ tf_n st' = zlen cs.
+Proof. exact tf_cursor_in_range. Qed.
+Print Assumptions C17_textfield_cursor_in_range.
+
+(* Callbacks, for every oracle, state and operation: Enter calls OnSubmit with the value
+   (and nothing else; the field is then reset without an OnChange); any other event calls
+   OnChange with the new value iff the value changed; exported methods never call back. *)
+Theorem C17_textfield_callbacks_exact :
+  forall seg st o st' log,
+    tf_handle seg st o = Some (st', log) ->
+    match o with
+    | TKey TkEnter => log = [CbSubmit (tf_value st)]
+    | TText _ | TKey _ | TIgnored =>
+        (tf_value st' <> tf_value st -> log = [CbChange (tf_value st')]) /\
+        (tf_value st' = tf_value st -> log = [])
+    | _ => log = []
+    end.
+Proof. exact tf_callbacks_reading. Qed.
+Print Assumptions C17_textfield_callbacks_exact.
+
+(* the decidable callback predicate the differential run evaluates on the implementation's
+   observations is satisfied by the model on every step *)
+Theorem C17_textfield_callbacks_checker :
+  forall seg st o st' log,
+    tf_handle seg st o = Some (st', log) -> tf_cb_ok o (tf_value st) (tf_value st') log = true.
+Proof. exact tf_callbacks_exact. Qed.
+Print Assumptions C17_textfield_callbacks_checker.
+
+(* While the text fits the widget (and a uint16), the cursor of the drawn surface is at
+   the display width of the text before the cursor. *)
+Theorem C17_textfield_drawn_cursor_column :
+  forall chars st maxw maxh cs,
+    maxw <> 0 -> maxh <> 0 -> chars (tf_value st) = Some cs -> widths_ok cs ->
+    cl_width cs < maxw -> maxw <= 65535 -> 0 <= tf_cursor st <= zlen cs ->
+    tf_draw chars st maxw maxh = Some (cl_width (firstn (Z.to_nat (tf_cursor st)) cs)).
+Proof. exact tf_drawn_cursor_column. Qed.
+Print Assumptions C17_textfield_drawn_cursor_column.
+
+(* ---------------------------------------------------------------- textinput *)
+
+(* From any starting content, cursor, scroll offset, prompt and pending paste buffer, after
+   every finite sequence of key events, paste brackets, other events, SetContent and Draw
+   (any window width): no operation panics or hangs, the content is exactly the ideal
+   editor's cluster list, it is the segmentation of its own String(), the cursor is at the
+   ideal editor's index and within the text. *)
+Theorem C17_textinput_refines_ideal :
+  forall (chars : text -> option (list cluster)) (alnum : Z -> bool) (A : list cluster),
+    (forall cs, in_alpha A cs -> chars (cl_text cs) = Some cs) ->
+    forall (e0 : ideal cluster) off paste pr (os : list ti_op),
+      in_alpha A (i_text e0) -> (exists ps, in_alpha A ps /\ paste = cl_text ps) ->
+      Forall (ti_op_ok A) os ->
+      exists m', ti_run chars alnum (ti_of_ideal e0 off paste pr) os = Some m' /\
+        let e' := i_run (ti_isw alnum) e0 (ti_abs chars paste os) in
+        ti_content m' = i_text e' /\ ti_cursor m' = i_index e' /\
+        chars (cl_text (ti_content m')) = Some (ti_content m') /\
+        0 <= ti_cursor m' <= zlen (ti_content m').
+Proof. exact ti_refines_ideal. Qed.
+Print Assumptions C17_textinput_refines_ideal.
+
+Theorem C17_textinput_cursor_in_range :
+  forall chars alnum (A : list cluster),
+    (forall cs, in_alpha A cs -> chars (cl_text cs) = Some cs) ->
+    forall e0 off paste pr os m',
+      in_alpha A (i_text e0) -> (exists ps, in_alpha A ps /\ paste = cl_text ps) ->
+      Forall (ti_op_ok A) os ->
+      ti_run chars alnum (ti_of_ideal e0 off paste pr) os = Some m' ->
+      0 <= ti_cursor m' <= zlen (ti_content m').
+Proof. exact ti_cursor_in_range. Qed.
+Print Assumptions C17_textinput_cursor_in_range.
+
+(* Draw terminates in every state and for every window width: the fuel of the model's
+   scroll loop (cursor - offset + 1 iterations) always suffices. *)
+Theorem C17_textinput_draw_terminates : forall (m : ti) (winW : Z), ti_draw m winW <> DrawHang.
+Proof. exact ti_draw_no_hang. Qed.
+Print Assumptions C17_textinput_draw_terminates.
+
+(* The loop as it was before the fix never terminates in a window at most scrolloff (4)
+   columns wider than the prompt (col = prompt width) ... *)
+Theorem C17_textinput_unfixed_draw_hangs :
+  forall fuel cs cursor offset col w,
+    widths_ok cs -> w <= col + scrolloff -> scroll_loop_orig fuel cs cursor offset col w = None.
+Proof. exact scroll_loop_orig_hangs. Qed.
+Print Assumptions C17_textinput_unfixed_draw_hangs.
+
+(* ... and whenever it did terminate, the fixed loop scrolls to the same place. *)
+Theorem C17_textinput_draw_fix_conservative :
+  forall fuel cs cursor col w offset o,
+    scroll_loop_orig fuel cs cursor offset col w = Some o ->
+    exists o', scroll_loop (S (Z.to_nat (cursor - offset))) cs cursor offset col w = Some o' /\
+               scroll_back cursor o' = scroll_back cursor o.
+Proof. exact draw_fix_conservative. Qed.
+Print Assumptions C17_textinput_draw_fix_conservative.
+
+(* Drawn cursor column.  Full statement wanted: "while the text fits the widget the cursor
+   is shown at prompt width + width of the text before the cursor".  Proved with two
+   explicit guards: (1) "fits" includes the widget's 4-column scroll margin, and (2) no
+   earlier Draw has scrolled (offset = 0): the offset is sticky, see the refutation below. *)
+Theorem C17_textinput_drawn_cursor_column_partial :
+  forall (m : ti) (w : Z),
+    widths_ok (ti_prompt m) -> widths_ok (ti_content m) ->
+    0 <= ti_cursor m <= zlen (ti_content m) -> ti_offset m = 0 ->
+    cl_width (ti_prompt m) + cl_width (ti_content m) + scrolloff < w ->
+    ti_draw m w = DrawDone 0 (Some (cl_width (ti_prompt m) +
+                                    cl_width (firstn (Z.to_nat (ti_cursor m)) (ti_content m)))).
+Proof. exact ti_drawn_cursor_column. Qed.
+Print Assumptions C17_textinput_drawn_cursor_column_partial.
+
+(* guard (2) is needed: type 20 narrow characters, Draw at width 10, then Draw at width 80 —
+   everything fits, yet the cursor is shown in column 5, not 20 *)
+Theorem C17_textinput_sticky_offset_refuted :
+  exists chars alnum s m,
+    ti_run chars alnum (ti_new []) [OEv (EDefault false s); ODraw 10] = Some m /\
+    ti_cursor m = 20 /\ cl_width (ti_content m) = 20 /\ ti_draw m 80 = DrawDone 15 (Some 5).
+Proof.
+  destruct ti_sticky_offset_witness as (m & H1 & _ & H2 & H3 & H4).
+  exists (chars_tab demo_alpha), demo_alnum, (repeat 97 20), m. auto.
+Qed.
+Print Assumptions C17_textinput_sticky_offset_refuted.
+
+(* tf_op_ok excludes assignments to the exported field Value.  That guard is needed: the
+   cached count is then stale and End does not move to the end of the text. *)
+Theorem C17_textfield_direct_value_refuted :
+  exists seg os st log,
+    tf_run seg tf_empty os = Some (st, log) /\
+    tf_cursor st <> i_index (i_run (fun _ => false) (mkIdeal [] []) (map (tf_abs seg) os)).
+Proof.
+  destruct tf_direct_value_witness as [H1 H2].
+  exists (seg_tab demo_alpha), [TSetValue [97; 98]; TKey TkEnd], (mkTf [97; 98] 0 0), [].
+  split; [exact H1|]. cbv zeta in H2. rewrite H2. discriminate.
+Qed.
+Print Assumptions C17_textfield_direct_value_refuted.
+
+(* ---------------------------------------------------------------- non-vacuity *)
+
+(* the stability hypothesis is satisfiable: tokenisation over any alphabet in which a
+   cluster is determined by its first rune is boundary-stable *)
+Theorem C17_stable_oracle_exists :
+  forall A : list cluster, head_distinct A ->
+    (forall cs, in_alpha A cs -> chars_tab A (cl_text cs) = Some cs) /\
+    (forall ts, in_alpha (map fst A) ts -> seg_tab A (concat ts) = Some ts).
+Proof. intros A H; split; intros; [now apply chars_tab_stable | now apply seg_tab_stable]. Qed.
+Print Assumptions C17_stable_oracle_exists.
+
+(* a concrete alphabet with narrow, wide, combining, ZWJ and flag clusters *)
+Example C17_demo_alphabet : head_distinct demo_alpha /\ zlen demo_alpha = 10.
+Proof. split; [exact demo_alpha_head_distinct | reflexivity]. Qed.
+
+(* TextField: type "a世", Left, type e+U+0301, Home, Delete, End, Backspace, Ctrl+k at the
+   end, from a field already holding a flag: the operations satisfy the hypotheses and
+   the run visits insertion in the middle, both deletions and the no-op kill *)
+Example C17_example_textfield :
+  let seg := seg_tab demo_alpha in
+  let A := map fst demo_alpha in
+  let e0 := mkIdeal [[127462; 127482]] [] in
+  let os := [TText [97; 19990]; TKey TkLeft; TText [101; 769]; TKey TkHome; TKey TkDelete;
+             TKey TkEnd; TKey TkBackspace; TKey TkKill] in
+  in_alpha A (i_text e0) /\ Forall (tf_op_ok A) os /\
+  tf_run seg (tf_of_ideal e0) os =
+    Some (mkTf [97; 101; 769] 2 2,
+          [CbChange [127462; 127482; 97; 19990]; CbChange [127462; 127482; 97; 101; 769; 19990];
+           CbChange [97; 101; 769; 19990]; CbChange [97; 101; 769]]).
+Proof.
+  cbv zeta. split; [|split].
+  - repeat constructor; cbn; tauto.
+  - repeat constructor.
+    + exists [[97]; [19990]]. split; [repeat constructor; cbn; tauto | reflexivity].
+    + exists [[101; 769]]. split; [repeat constructor; cbn; tauto | reflexivity].
+  - vm_compute. reflexivity.
+Qed.
+
+(* textinput: SetContent "ab -1世", word back, kill word ("ab -"), a two-chunk paste, Draw in a
+   4-column window (which used to hang) *)
+Example C17_example_textinput :
+  let chars := chars_tab demo_alpha in
+  let os := [OSetContent [97; 98; 32; 45; 49; 19990]; OEv (EKey IkWordB);
+             OEv (EKey IkKillWord); OEv (EPasteChunk [101; 769]); OEv (EPasteChunk [128105; 8205; 128103]);
+             OEv EPasteEnd; ODraw 4; OEv (EKey IkWordF)] in
+  Forall (ti_op_ok demo_alpha) os /\
+  ti_run chars demo_alnum (ti_new []) os =
+    Some (mkTi [([101; 769], 1); ([128105; 8205; 128103], 2); ([49], 1); ([19990], 2)] 4 0 [] []).
+Proof.
+  cbv zeta. split.
+  - repeat constructor.
+    + exists [([97], 1); ([98], 1); ([32], 1); ([45], 1); ([49], 1); ([19990], 2)].
+      split; [repeat constructor; cbn; tauto | reflexivity].
+    + exists [([101; 769], 1)]. split; [repeat constructor; cbn; tauto | reflexivity].
+    + exists [([128105; 8205; 128103], 2)]. split; [repeat constructor; cbn; tauto | reflexivity].
+  - vm_compute. reflexivity.
+Qed.
